@@ -54,6 +54,8 @@ type Term struct {
 	k       uint64
 	id      int32
 	lo, hi  uint64
+	kz, ko  uint64 // known-zero / known-one bit masks
+	pcmax   uint8  // upper bound on the number of set bits
 	emitLvl int32
 	evalGen uint32
 	evalVal uint64
@@ -114,7 +116,7 @@ func (tb *TB) Const(w uint8, v uint64) *Term {
 		return t
 	}
 	tb.nextID++
-	t := &Term{op: OConst, w: w, k: v, id: tb.nextID, lo: v, hi: v, emitLvl: -1}
+	t := &Term{op: OConst, w: w, k: v, id: tb.nextID, lo: v, hi: v, kz: ^v, ko: v, pcmax: uint8(bits.OnesCount64(v)), emitLvl: -1}
 	tb.consts[key] = t
 	return t
 }
@@ -132,7 +134,7 @@ func (tb *TB) Var(name string, w uint8) *Term {
 		return t
 	}
 	tb.nextID++
-	t := &Term{op: OVar, w: w, id: tb.nextID, name: name, lo: 0, hi: maskW(w), emitLvl: -1}
+	t := &Term{op: OVar, w: w, id: tb.nextID, name: name, lo: 0, hi: maskW(w), kz: ^maskW(w), pcmax: w, emitLvl: -1}
 	tb.vars = append(tb.vars, t)
 	tb.varByNm[name] = t
 	return t
@@ -151,8 +153,26 @@ func (tb *TB) mk(op Op, w uint8, k uint64, a, b, c *Term) *Term {
 		return t
 	}
 	tb.nextID++
-	t := &Term{op: op, w: w, k: k, a: a, b: b, c: c, id: tb.nextID, lo: 0, hi: maskW(w), emitLvl: -1}
+	t := &Term{op: op, w: w, k: k, a: a, b: b, c: c, id: tb.nextID, lo: 0, hi: maskW(w), pcmax: w, emitLvl: -1}
+	tb.popBound(t)
 	tb.interval(t)
+	if w > 0 {
+		tb.knownBits(t)
+		m := maskW(w)
+		if (t.kz|t.ko)&m == m {
+			ct := tb.Const(w, t.ko)
+			tb.tab[key] = ct
+			return ct
+		}
+		if t.lo == t.hi {
+			ct := tb.Const(w, t.lo)
+			tb.tab[key] = ct
+			return ct
+		}
+		if pc := uint8(bits.OnesCount64(^t.kz & m)); pc < t.pcmax {
+			t.pcmax = pc
+		}
+	}
 	tb.tab[key] = t
 	return t
 }
@@ -255,6 +275,12 @@ func (tb *TB) interval(t *Term) {
 		if t.op == OPopcnt {
 			// popcount of a value <= hi is at most bitlen(hi)
 			t.hi = uint64(bits.Len64(a.hi))
+			if uint64(a.pcmax) < t.hi {
+				t.hi = uint64(a.pcmax)
+			}
+			if a.ko != 0 {
+				t.lo = uint64(bits.OnesCount64(a.ko))
+			}
 		} else {
 			t.lo = uint64(bits.LeadingZeros64(a.hi))
 			t.hi = uint64(bits.LeadingZeros64(a.lo))
@@ -262,6 +288,119 @@ func (tb *TB) interval(t *Term) {
 	}
 	if t.w == 0 {
 		t.lo, t.hi = 0, 1
+	}
+}
+
+// popBound computes an upper bound on the number of set bits.
+func (tb *TB) popBound(t *Term) {
+	a, b, c := t.a, t.b, t.c
+	min8 := func(x, y uint8) uint8 {
+		if x < y {
+			return x
+		}
+		return y
+	}
+	switch t.op {
+	case OBAnd:
+		t.pcmax = min8(a.pcmax, b.pcmax)
+	case OBOr, OBXor:
+		if int(a.pcmax)+int(b.pcmax) < int(t.w) {
+			t.pcmax = a.pcmax + b.pcmax
+		}
+	case OIte:
+		t.pcmax = b.pcmax
+		if c.pcmax > t.pcmax {
+			t.pcmax = c.pcmax
+		}
+	case OZext, OExtract:
+		t.pcmax = min8(a.pcmax, t.w)
+	case OShl, OLshr:
+		t.pcmax = a.pcmax
+	}
+}
+
+// knownBits computes known-zero/known-one masks (as in LLVM's KnownBits) and tightens the interval.
+func (tb *TB) knownBits(t *Term) {
+	m := maskW(t.w)
+	a, b, c := t.a, t.b, t.c
+	var kz, ko uint64
+	switch t.op {
+	case OBAnd:
+		kz, ko = a.kz|b.kz, a.ko&b.ko
+	case OBOr:
+		kz, ko = a.kz&b.kz, a.ko|b.ko
+	case OBXor:
+		known := (a.kz | a.ko) & (b.kz | b.ko)
+		v := (a.ko ^ b.ko) & known
+		ko, kz = v, ^v&known
+	case OBNot:
+		kz, ko = a.ko, a.kz
+	case OShl:
+		if b.IsConst() && b.k < uint64(t.w) {
+			kz, ko = (a.kz<<b.k)|((uint64(1)<<b.k)-1), a.ko<<b.k
+		}
+	case OLshr:
+		if b.IsConst() && b.k < uint64(t.w) {
+			am := maskW(a.w)
+			kz, ko = ((a.kz&am)>>b.k)|^(am>>b.k), (a.ko&am)>>b.k
+		}
+	case OZext:
+		am := maskW(a.w)
+		kz, ko = (a.kz&am)|^am, a.ko&am
+	case OSext:
+		am := maskW(a.w)
+		sign := uint64(1) << (a.w - 1)
+		kz, ko = a.kz&am, a.ko&am
+		if a.kz&sign != 0 {
+			kz |= ^am
+		} else if a.ko&sign != 0 {
+			ko |= ^am
+		}
+	case OExtract:
+		kz, ko = a.kz>>t.k, a.ko>>t.k
+	case OIte:
+		kz, ko = b.kz&c.kz, b.ko&c.ko
+	case OAdd:
+		// no two possibly-one bits overlap: the sum is the bitwise or
+		if (^a.kz&m)&(^b.kz&m) == 0 {
+			kz, ko = a.kz&b.kz, a.ko|b.ko
+		} else {
+			// low bits known in both operands: the low part of the sum is known
+			n := uint(bits.TrailingZeros64(^((a.kz | a.ko) & (b.kz | b.ko))))
+			if n > 0 {
+				lm := (uint64(1) << n) - 1
+				if n >= 64 {
+					lm = ^uint64(0)
+				}
+				sum := (a.ko + b.ko) & lm
+				ko, kz = sum, ^sum&lm
+			}
+		}
+	case OMul:
+		if b.IsConst() && b.k != 0 {
+			tz := uint(bits.TrailingZeros64(b.k))
+			kz = (uint64(1) << tz) - 1
+			tza := uint(bits.TrailingZeros64(^a.kz))
+			if tza+tz < 64 {
+				kz = (uint64(1) << (tza + tz)) - 1
+			}
+		}
+	}
+	// the interval bounds the high bits
+	kz |= ^nextPow2Mask(t.hi)
+	kz &= m
+	ko &= m
+	kz &^= ko & 0 // (kept separate; a contradiction cannot arise from sound rules)
+	t.kz, t.ko = kz|^m, ko
+	// tighten the interval from the known bits
+	if maxv := ^t.kz & m; maxv < t.hi {
+		t.hi = maxv
+	}
+	if t.ko > t.lo {
+		t.lo = t.ko
+	}
+	if t.lo > t.hi {
+		t.lo = t.hi
 	}
 }
 
@@ -517,6 +656,9 @@ func (tb *TB) bin(op Op, a, b *Term) *Term {
 	}
 	w := a.w
 	m := maskW(w)
+	if op == OAshr && w > 0 && a.hi < uint64(1)<<(w-1) {
+		op = OLshr // non-negative: arithmetic and logical shifts agree
+	}
 	if a.IsConst() && b.IsConst() {
 		x, y := a.k, b.k
 		var r uint64
@@ -624,6 +766,10 @@ func (tb *TB) bin(op Op, a, b *Term) *Term {
 			}
 			// and with mask covering the whole range of a
 			if a.hi <= y && y&(y+1) == 0 {
+				return a
+			}
+			// every possibly-one bit of a is kept by the mask
+			if (^a.kz&m)&^y == 0 {
 				return a
 			}
 		case OBOr:
